@@ -58,6 +58,12 @@ class Discard(Exception):
         self.reason = reason
 
 
+class SimAbort(BaseException):
+    """Injected failure that is not an `Exception` (abort hook, interrupt, cancellation)."""
+
+    _fesim_injected = True
+
+
 class Unexpected(BaseException):
     """An exception of an undocumented kind escaped felupe in a fault-free run (e.g. a numpy
     broadcasting ValueError instead of Newton's own 'not converged' ValueError). The worker
